@@ -120,3 +120,10 @@ Import ListNotations.
 From BWExec Require Import Base Values Store Driver Exec Fault Corr.
 Open Scope N_scope.
 """
+
+
+def det_rows(st):
+    """row order inside the engine is determined when the WHERE pattern has a single clause (lookups are sorted by the
+    driver); several clauses run through an errgroup"""
+    note = st.get("note") or ""
+    return st["kind"] != "construct" or (" . " not in note and "OPTIONAL" not in note)
